@@ -189,6 +189,15 @@ class ConvIn:  # the annotation used on converters' first parameter
 TYPES = {"int": int, "str": str}
 
 
+def _is_bare(f):
+    """a field written as a bare annotation: only possible while it carries no option a field() would need
+    (a later edit of the spec, e.g. by another property's generator, silently turns it into a field())"""
+    return bool(f.get("bare") and f.get("annotated") and f.get("type") and f.get("converter") is None
+                and not f.get("validators") and f.get("on_setattr", "unset") == "unset" and not f.get("alias")
+                and f.get("init", True) and not f.get("kw_only") and f.get("default") in ("none", "value")
+                and f.get("eq") is not False)
+
+
 def _deco_kwargs(cs):
     kw = {}
     for k in ("slots", "frozen", "cache_hash", "kw_only", "auto_exc", "init", "collect_by_mro", "unsafe_hash", "eq",
@@ -225,7 +234,7 @@ def build_class(cs, base, modname="verif_synth"):
     if api in ("attr.s", "define", "frozen"):
         anns = {}
         for f in fields:
-            if f.get("bare") and f.get("annotated") and f.get("type"):
+            if _is_bare(f):
                 # a bare annotation (`x: int` / `x: int = value`), no field() object
                 anns[f["name"]] = TYPES[f["type"]]
                 if f["default"] == "value":
